@@ -1130,7 +1130,14 @@ class Interp:
     def apply(self, f, args, kwargs):
         if not callable(f):
             raise PyRaise("TypeError", f"{f!r} is not callable")
-        return f(*args, **kwargs)
+        try:
+            return f(*args, **kwargs)
+        except (TypeError, ValueError, IndexError, KeyError, ZeroDivisionError) as ex:
+            # a builtin / library function applied to plain concrete Python values (no symbolic operand) behaves here exactly as in
+            # the real run: its exception IS the program's behaviour (e.g. prod(None), (1, 2) - (1,), 1 / 0), not a model gap
+            if not isinstance(f, (Closure, BoundMethod)) and _all_concrete(list(args) + list(kwargs.values())):
+                raise PyRaise(type(ex).__name__, str(ex)[:200])
+            raise
 
     def _comp(self, gens, env, emit):
         if not gens:
@@ -1404,6 +1411,23 @@ class Interp:
                  RuntimeError="RuntimeError", KeyError="KeyError", IndexError="IndexError", Exception="Exception",
                  True_=True, None_=None, NotImplemented=NotImplemented, Ellipsis=Ellipsis)
         return b
+
+
+def _all_concrete(vals, depth=0):
+    """only plain Python data (no symbolic / model objects)"""
+    for v in vals:
+        if v is None or isinstance(v, (bool, int, float, str, bytes, slice)):
+            continue
+        if isinstance(v, (tuple, list, frozenset, set)) and depth < 4:
+            if not _all_concrete(list(v), depth + 1):
+                return False
+            continue
+        if isinstance(v, dict) and depth < 4:
+            if not _all_concrete(list(v.keys()) + list(v.values()), depth + 1):
+                return False
+            continue
+        return False
+    return True
 
 
 def _is_generator(node):
